@@ -293,10 +293,14 @@ def choose(state, avail, rng, pol):
                 k += 1
             if k and rng.random() < 0.85:
                 args = ['??' * rng.randint(1, k)]
-        elif dm == 'explicit' and rng.random() < 0.8:
+        elif dm in ('explicit', 'fewranks') and rng.random() < 0.8:
             i = s.hole_dealee_index
             k = rng.randint(1, len(s.hole_dealing_statuses[i]))
             cards = tuple(s.get_dealable_cards(k))
+            if dm == 'fewranks':
+                few = [c for c in cards if c.rank.value in pol['ranks']]
+                if len(few) >= k:
+                    cards = few
             if len(cards) >= k:
                 pick = rng.sample(cards, k)
                 args = [''.join(map(repr, pick))]
@@ -311,9 +315,13 @@ def choose(state, avail, rng, pol):
             args = [rng.randint(1, len(s.hole_dealing_statuses[i])), i]
     elif op == 'deal_board':
         cnt = s.board_dealing_count
-        if dm == 'explicit' and rng.random() < 0.8:
+        if dm in ('explicit', 'fewranks') and rng.random() < 0.8:
             k = rng.randint(1, cnt)
             cards = tuple(s.get_dealable_cards(k))
+            if dm == 'fewranks':
+                few = [c for c in cards if c.rank.value in pol['ranks']]
+                if len(few) >= k:
+                    cards = few
             if len(cards) >= k:
                 args = [''.join(map(repr, rng.sample(cards, k)))]
         elif dm in ('chunks', 'anyorder') and rng.random() < 0.6:
@@ -392,6 +400,7 @@ def gen_policy(rng):
         'runout_pref': rng.choice([1, 2, 2, 3]),
         'muck': rng.choice(['never', 'losers']),
         'pseed': rng.getrandbits(32),
+        'ranks': ''.join(rng.sample('A23456789TJQK', rng.choice([2, 3, 4]))),
     }
 
 
